@@ -16,13 +16,15 @@ EXTENDS Integers, Sequences, FiniteSets, TLC
 
 CONSTANTS Alphabet, Delim, MaxLen, Initial, FromEnd
 
-VARIABLES file, pos, buffer, pending, emitted
-vars == <<file, pos, buffer, pending, emitted>>
+VARIABLES file, pos, buffer, pending, emitted,
+          on       \* the source has been started and not stopped since: only then does a new polling cycle (a read) begin;
+                   \* the records of the cycle in progress are still emitted after a stop
+vars == <<file, pos, buffer, pending, emitted, on>>
 
 L == Len(Delim)
 StartPos == IF FromEnd THEN Len(Initial) ELSE 0
 
-Init == /\ file = Initial /\ pos = StartPos /\ buffer = <<>> /\ pending = <<>> /\ emitted = <<>>
+Init == /\ file = Initial /\ pos = StartPos /\ buffer = <<>> /\ pending = <<>> /\ emitted = <<>> /\ on = FALSE
 
 \* position of the leftmost occurrence of Delim in s (0: none) -- str.split / `in` semantics
 Occurs(s, i) == i + L - 1 <= Len(s) /\ SubSeq(s, i, i + L - 1) = Delim
@@ -38,25 +40,27 @@ Rest(s) == LET i == Find(s) IN IF i = 0 THEN s ELSE Rest(SubSeq(s, i + L, Len(s)
 Write(chunk) ==
     /\ Len(file) + Len(chunk) <= MaxLen
     /\ file' = file \o chunk
-    /\ UNCHANGED <<pos, buffer, pending, emitted>>
+    /\ UNCHANGED <<pos, buffer, pending, emitted, on>>
 
 \* one read(): everything not yet read is appended to the buffer and split
 Poll ==
-    /\ pending = <<>> /\ pos < Len(file)
+    /\ on /\ pending = <<>> /\ pos < Len(file)
     /\ LET b == buffer \o SubSeq(file, pos + 1, Len(file)) IN
        /\ pending' = Records(b)
        /\ buffer' = Rest(b)
     /\ pos' = Len(file)
-    /\ UNCHANGED <<file, emitted>>
+    /\ UNCHANGED <<file, emitted, on>>
 
 \* the records of one read are emitted one after the other (each awaited)
 EmitRec ==
     /\ pending # <<>>
     /\ emitted' = Append(emitted, Head(pending)) /\ pending' = Tail(pending)
-    /\ UNCHANGED <<file, pos, buffer>>
+    /\ UNCHANGED <<file, pos, buffer, on>>
 
 Chunks == {<<a>> : a \in Alphabet} \cup {<<a, b>> : a \in Alphabet, b \in Alphabet}
-Next == (\E c \in Chunks : Write(c)) \/ Poll \/ EmitRec
+Start == on' = TRUE /\ UNCHANGED <<file, pos, buffer, pending, emitted>>
+Stop == on' = FALSE /\ UNCHANGED <<file, pos, buffer, pending, emitted>>
+Next == (\E c \in Chunks : Write(c)) \/ Poll \/ EmitRec \/ Start \/ Stop
 Spec == Init /\ [][Next]_vars
 
 ----------------------------------------------------------------------------
@@ -71,6 +75,8 @@ WholeRecords == \A i \in 1 .. Len(emitted) : Find(emitted[i]) = Len(emitted[i]) 
 \* an unterminated tail is held back, and only that
 TailHeld == Find(buffer) = 0
 \* hence: once everything has been read and emitted, the output is exactly the records of the text
+\* C18: no polling cycle begins while the source is stopped (action property)
+NoReadWhileStopped == [][(pos' # pos) => on]_vars
 Exact == (pos = Len(file) /\ pending = <<>>) =>
             /\ emitted = Records(SubSeq(file, StartPos + 1, Len(file)))
             /\ buffer = Rest(SubSeq(file, StartPos + 1, Len(file)))
